@@ -16,8 +16,8 @@ from . import optmodels as om
 
 NAME = "optsim"
 SIM_UNIT = "solver invocations (trials)"
-BUDGET = {"C08": {"quick": {"runs": 1500, "wall": 85}, "thorough": {"runs": 60000, "wall": 1800}},
-          "C07": {"quick": {"runs": 700, "wall": 85}, "thorough": {"runs": 30000, "wall": 1800}}}
+BUDGET = {"C08": {"quick": {"runs": 3500, "wall": 85}, "thorough": {"runs": 60000, "wall": 1800}},
+          "C07": {"quick": {"runs": 2000, "wall": 85}, "thorough": {"runs": 30000, "wall": 1800}}}
 SHRINK_LISTS = ("faults", "ops")
 PROBES = {
     "C08": ["call:accept-first", "call:reject-then-accept", "call:exhausted", "call:raise-first-trial",
